@@ -104,7 +104,7 @@ TYPICAL = {
 
 
 def tester_povms(sysname, spec):
-    """spec: ["typical"] or ["random", seed, count, outcomes] or ["names", [...]]"""
+    """spec: ["typical"] or ["random", seed, count, outcomes] or ["mixed", seed, [outcomes, ...]] or ["names", [...]]"""
     from quara.objects.tester_typical import generate_tester_povms
     c = c_sys_of(sysname)
     if spec[0] == "typical":
@@ -112,6 +112,8 @@ def tester_povms(sysname, spec):
     if spec[0] == "names":
         return generate_tester_povms(c, list(spec[1]))
     rnd = random.Random(spec[1])
+    if spec[0] == "mixed":      # ["mixed", seed, [outcome counts]] : tester POVMs with DIFFERENT numbers of outcomes
+        return [make_povm(c, rand_povm_ops(rnd, c.dim, mo), True) for mo in spec[2]]
     return [make_povm(c, rand_povm_ops(rnd, c.dim, spec[3]), True) for _ in range(spec[2])]
 
 
